@@ -33,6 +33,8 @@ var asaUnmanaged = []string{
 	"interface Ethernet0/4\n nameif vpn\naccess-list cry-DRC-0 extended permit ip host 10.5.5.9 host 10.5.5.10\ncrypto ipsec ikev1 transform-set tu-DRC-0 esp-3des esp-sha-hmac\ncrypto map mvpn 10 match address cry-DRC-0\ncrypto map mvpn 10 set peer 10.3.3.9\ncrypto map mvpn 10 set ikev1 transform-set tu-DRC-0\ncrypto map mvpn interface vpn\n",
 	// object-group referenced by an unbound ACL and by the managed ACL
 	"object-group network g1\n network-object host 10.1.1.10\n network-object host 10.1.1.11\naccess-list manual3 extended permit ip object-group g1 any4\n",
+	// interface unknown to Netspoc with access-groups in both directions
+	"interface Ethernet0/5\n nameif dmz3\naccess-list dmz3_in extended permit ip host 10.5.5.31 any4\naccess-list dmz3_out extended permit ip host 10.5.5.32 any4\naccess-group dmz3_in in interface dmz3\naccess-group dmz3_out out interface dmz3\n",
 	// plain-named group-policy (two commands) re-using a generated filter
 	// ACL whose second line references a further generated group
 	"object-group network gm1-DRC-0\n network-object 10.0.5.0 255.255.255.0\nobject-group network gm2-DRC-0\n network-object 10.0.6.0 255.255.255.0\n" +
@@ -52,6 +54,8 @@ var iosUnmanaged = []string{
 	"ntp server 10.1.1.1\nlogging host 10.1.1.2\n",
 	"crypto map GD 10 gdoi\ninterface Ethernet8\n ip address 10.8.8.1 255.255.255.0\n crypto map GD\n",
 	"interface Ethernet7\n ip address 10.7.7.1 255.255.255.0\n ip vrf forwarding X\n ip access-group e7-DRC-0 in\nip access-list extended e7-DRC-0\n permit ip any any\n",
+	// unknown interface with ACLs in both directions
+	"ip access-list extended e6_in\n permit ip host 10.5.5.31 any\nip access-list extended e6_out\n permit ip host 10.5.5.32 any\ninterface Ethernet6\n ip address 10.6.6.1 255.255.255.0\n ip access-group e6_in in\n ip access-group e6_out out\n",
 }
 
 // subsetsUpTo returns all subsets of {0..n-1} with at most k elements.
@@ -278,7 +282,7 @@ func panFrameSpace() *panSpace {
 func init() {
 	registerSharded("C07", c07Worker, func(tier string) core.Meta {
 		return core.Meta{ID: "C07", Level: "model_checking",
-			Rule: "states = distinct device-model states; device states = managed ACL pair space (len<=2 over 5 lines incl. group references) x all subsets of up to 2 (thorough 4) unmanaged items from an alphabet of 11 ASA / 6 IOS items (plain-named group-policy and tunnel-group chains through two-command objects down to generated filter ACLs, groups and pools, unbound plain-named ACL, group used only by it, group shared with a managed ACL, unknown interfaces - shutdown or not - with ACLs, groups and crypto maps carrying generated names, routes of other family/VRF, unmodelled lines, aaa-server/ldap map, gdoi crypto map); PAN-OS: two-vsys devices, target addressing one; transition = real planner; after every executed command every unmanaged entry must still be present with identical text and sub-commands (PAN-OS: the XML outside the targeted vsys is byte-identical); non-trivial = script non-empty. NSX (objects without the Netspoc prefix) is filtered while reading the manager and is therefore checked end to end by the dialogue engine (C11/C09 simulators), not here",
+			Rule: "states = distinct device-model states; device states = managed ACL pair space (len<=2 over 5 lines incl. group references) x all subsets of up to 2 (thorough 4) unmanaged items from an alphabet of 12 ASA / 7 IOS items (plain-named group-policy and tunnel-group chains through two-command objects down to generated filter ACLs, groups and pools, unbound plain-named ACL, group used only by it, group shared with a managed ACL, unknown interfaces - shutdown or not - with ACLs, groups and crypto maps carrying generated names, routes of other family/VRF, unmodelled lines, aaa-server/ldap map, gdoi crypto map); PAN-OS: two-vsys devices, target addressing one; transition = real planner; after every executed command every unmanaged entry must still be present with identical text and sub-commands (PAN-OS: the XML outside the targeted vsys is byte-identical); non-trivial = script non-empty. NSX (objects without the Netspoc prefix) is filtered while reading the manager and is therefore checked end to end by the dialogue engine (C11/C09 simulators), not here",
 			Assumptions: []string{"unmanaged content is what the statement lists; the check knows exactly which lines it added as unmanaged"},
 			Bounds:      map[string]any{"quick": "<=2 unmanaged items", "thorough": "<=4 unmanaged items"},
 		}
